@@ -1,4 +1,6 @@
 import PgBifrost.Proofs.BatcherTick
+import PgBifrost.Proofs.BatcherTimed
+import PgBifrost.Gen.Conds
 /-!
 # C16 — flush by age and by memory pressure (decision logic; timing is modelled)
 
@@ -91,5 +93,107 @@ example : openBytes (onTick cfg0 s0 [[2]]).1 < cfg0.memLimit ∨ (onTick cfg0 s0
     (run_keysNodup (genericLaws 3 (by omega)) cfg0 _ (fun _ _ => trivial) (by decide)) (by decide)
 /-- at time 2000 both batches are idle past `updAge`: both must be flushed -/
 example : validTick (genericKind 3) cfg0 2000 s0 times0 [[2], [1]] = true := by decide
+
+/-! ## flush by age, in logical time (`Model/BatcherTimed.lean`)
+
+The theorems above are about ONE tick whose batch times are given. Here the clock is part of the run: every
+loop iteration (message or tick) carries its clock reading, the layer keeps the create / modify times the
+real batches would hold, and ticks decide on those. Assumptions of a run (`ok`): the clock never goes
+backwards, every tick flushes a `validTick` order. NOT assumed: anything about how often messages arrive, for
+which keys, or how they interleave with ticks — "no matter how steadily records keep arriving". What the
+model cannot exhibit is that a tick IS handled at least every Δ (Go's ticker and `select`; measured by the
+`batcherload` component): the bounds below are stated relative to the times at which ticks were handled. -/
+section timed
+open PgBifrost.BatcherTimed
+
+/-- **Age invariant.** In every state a run reaches, relative to the last handled tick no open batch is older
+than the maximum age or idle for longer than the idle age: for every arrival pattern. -/
+theorem age_invariant {K : Kind} {cfg : Cfg} (hmax : 0 ≤ cfg.maxAge) (hupd : 0 ≤ cfg.updAge) (t0 : Int)
+    (ops : List TOp) (hok : (trun K cfg (tinit {} t0) ops).ok = true) :
+    ∀ pk b, getOpen (trun K cfg (tinit {} t0) ops).s pk = some b →
+      ∃ e, timesOf (trun K cfg (tinit {} t0) ops).times pk = some e ∧
+        (trun K cfg (tinit {} t0) ops).lastTick - e.ctime ≤ cfg.maxAge ∧
+        (trun K cfg (tinit {} t0) ops).lastTick - e.mtime ≤ cfg.updAge := by
+  intro pk b hb
+  obtain ⟨e, he, h1, h2⟩ := (fresh_run hmax hupd ops _ (fresh_init cfg t0) hok).2 pk b hb
+  exact ⟨e, he, by omega, by omega⟩
+
+/-- **`age_bound`: a batch is handed to a worker at the latest one tick after it became due.** Take any run
+and the next handled tick, at `now`, the previous one having been handled at `lastTick` (or the run started
+then). For every non-empty open batch: (a) at this tick it is at most `maxAge + (now - lastTick)` old and
+`updAge + (now - lastTick)` idle — it cannot have been overdue at the previous tick; (b) if it IS overdue now
+(older than `maxAge`, or idle for longer than `updAge`) this tick dispatches it. With ticks handled at most Δ
+apart: handed over within `maxAge + Δ` of its creation, or `updAge + Δ` of its last record. -/
+theorem age_bound {K : Kind} {cfg : Cfg} (hmax : 0 ≤ cfg.maxAge) (hupd : 0 ≤ cfg.updAge) (t0 : Int)
+    (ops : List TOp) (now : Int) (order : List PKey)
+    (hok : (tstep K cfg (trun K cfg (tinit {} t0) ops) (.tick now order)).1.ok = true)
+    (halive : (trun K cfg (tinit {} t0) ops).s.dead = false)
+    (pk : PKey) (b : Batch) (hb : getOpen (trun K cfg (tinit {} t0) ops).s pk = some b) (hne : b.isEmpty = false) :
+    ∃ e, timesOf (trun K cfg (tinit {} t0) ops).times pk = some e ∧
+      now - e.ctime ≤ cfg.maxAge + (now - (trun K cfg (tinit {} t0) ops).lastTick) ∧
+      now - e.mtime ≤ cfg.updAge + (now - (trun K cfg (tinit {} t0) ops).lastTick) ∧
+      ((cfg.maxAge < now - e.ctime ∨ cfg.updAge < now - e.mtime) →
+        b ∈ dispatched (tstep K cfg (trun K cfg (tinit {} t0) ops) (.tick now order)).2 ∧
+        getOpen (tstep K cfg (trun K cfg (tinit {} t0) ops) (.tick now order)).1.s pk = none) := by
+  have hok0 := tstep_ok_mono _ _ hok
+  obtain ⟨e, he, h1, h2⟩ := age_invariant hmax hupd t0 ops hok0 pk b hb
+  refine ⟨e, he, by omega, by omega, ?_⟩
+  intro hdue
+  simp only [tstep, halive, Bool.false_eq_true, ↓reduceIte, Bool.and_eq_true] at hok ⊢
+  obtain ⟨t, ht, hflush⟩ := tick_flushes_due hok.2 hb
+  rw [he] at ht; cases ht
+  have hmf : mustFlush K cfg now b e.ctime e.mtime = true := by
+    simp only [mustFlush, Bool.or_eq_true, decide_eq_true_eq]
+    rcases hdue with h | h
+    · exact Or.inl (Or.inr (by omega))
+    · exact Or.inl (Or.inl (Or.inr (by omega)))
+  obtain ⟨_, hgone, hdisp⟩ := hflush hmf
+  exact ⟨hdisp hne, hgone⟩
+
+/-! not vacuous: records for key 1 keep arriving every 300 ns, one record for key 2 at the start; idle age 1000,
+maximum age 2500, ticks at 1000, 2000, 3000. The cold batch (key 2) goes at the tick at 2000 (idle since 0), the
+hot one (key 1, never idle) at the tick at 3000 (created at 100, older than 2500). -/
+private def cfgT : Cfg := ⟨1, .roundRobin, 1000, 2500, 1000000⟩
+private def hot (lsn : Nat) : Msg := ⟨.data, [1], 7, 70, 10, lsn, lsn, 0⟩
+private def cold : Msg := ⟨.data, [2], 7, 70, 10, 99, 99, 0⟩
+private def opsT : List TOp :=
+  [.msg cold 0, .msg (hot 100) 100, .msg (hot 101) 400, .msg (hot 102) 700, .tick 1000 [],
+   .msg (hot 103) 1100, .msg (hot 104) 1400, .msg (hot 105) 1700, .tick 2000 [[2]],
+   .msg (hot 106) 2100, .msg (hot 107) 2400, .msg (hot 108) 2700]
+example : (trun (genericKind 100) cfgT (tinit {} 0) opsT).ok = true := by decide
+example : (trun (genericKind 100) cfgT (tinit {} 0) opsT).s.openB.map (·.1) = [[1]] := by decide
+example : (tstep (genericKind 100) cfgT (trun (genericKind 100) cfgT (tinit {} 0) opsT) (.tick 3000 [[1]])).1.ok = true := by
+  decide
+example : ((dispatched (tstep (genericKind 100) cfgT (trun (genericKind 100) cfgT (tinit {} 0) opsT) (.tick 3000 [[1]])).2).map
+    (·.payload.length)) = [9] := by decide
+/-- an order that leaves the overdue batch open is not a valid tick: `ok` turns false -/
+example : (tstep (genericKind 100) cfgT (trun (genericKind 100) cfgT (tinit {} 0) opsT) (.tick 3000 [])).1.ok = false := by
+  decide
+
+end timed
+
+/-! ## the decision rules are the ones in the source
+
+`Gen/Conds.lean` is TRANSLATED from `handleTicker` on every run (the `if … { flush = true }` conditions of the
+marking loop, the entry and exit conditions of the memory-pressure loop). The model's rules are equal to it:
+a changed comparison (`<` for `<=`), a dropped or added condition, swapped ages break these theorems. -/
+section source
+open PgBifrost.Gen.Conds
+
+theorem tick_decision_as_in_source (K : Kind) (cfg : Cfg) (now : Int) (b : Batch) (c m : Int) :
+    mustFlush K cfg now b c m = tickFlush b.isEmpty (K.isFull b) c m now cfg.updAge cfg.maxAge := by
+  simp [mustFlush, tickFlush]
+
+theorem pressure_rule_as_in_source (cfg : Cfg) (s : State) (kept : List PKey) (total : Int) :
+    (decide (total ≥ cfg.memLimit) = pressureStart total cfg.memLimit) ∧
+    (validPops cfg s kept [] total = (pressureStop total cfg.memLimit || kept.isEmpty)) ∧
+    (∀ p ps, validPops cfg s kept (p :: ps) total = true → pressureStop total cfg.memLimit = false) := by
+  refine ⟨rfl, rfl, ?_⟩
+  intro p ps h
+  simp only [validPops, Bool.and_eq_true, decide_eq_true_eq] at h
+  simp only [pressureStop, decide_eq_false_iff_not, Int.not_lt]
+  exact h.1.1.1
+
+end source
 
 end PgBifrost.Props.C16
